@@ -40,8 +40,9 @@ pub fn header_fields(h: &MessageHeader) -> String {
         format!("{}:{}:{}", j, hh, mm)
     });
     let call = guarded(|| hex_of_bytes(h.callsign().as_bytes()));
+    let nat = guarded(|| if h.is_national() { "1".to_owned() } else { "0".to_owned() });
     format!(
-        "{} {} {} org={} evt={} locs={} dur={} iss={} call={}",
+        "{} {} {} org={} evt={} locs={} dur={} iss={} call={} nat={}",
         text,
         h.parity_error_count(),
         h.voting_byte_count(),
@@ -50,7 +51,8 @@ pub fn header_fields(h: &MessageHeader) -> String {
         locs,
         dur,
         iss,
-        call
+        call,
+        nat
     )
 }
 
